@@ -35,7 +35,7 @@ STYLES = ("rest", "google", "numpydoc")
 
 def probes():
     return ["partial_doc_with_2plus_undocumented", "permuted_doc", "import_inference_cmd", "gen_prepend_cmd", "exmod_cmd",
-            "gen_infer_mixed_kinds", "gen_directory_cmd", "exmod_two_subpackages", "ambiguous_symbol_any", "openapi_emit_ops", "gen_phase1_multi_fk", "docstring_with_footer",
+            "gen_infer_mixed_kinds", "gen_directory_cmd", "exmod_two_subpackages", "exmod_names_differing_in_case", "merge_all_lists_op", "rest_doc_with_google_token", "ambiguous_symbol_any", "openapi_emit_ops", "gen_phase1_multi_fk", "docstring_with_footer",
             "sync_cmd", "doctrans_cmd", "openapi_cmd", "repeated_occurrences", "ops_ok_somewhere"]
 
 
@@ -95,7 +95,13 @@ def partial_doc_function(rng, probes_out):
         # text after the parameter section (a footer): parsers that edit a scanned structure in place show up when the
         # same docstring text is parsed twice in one process
         footer = rng.choice(("Example:\n      %s(1)" % spec["name"], "Notes\n    -----\n    Kept for later.",
-                             "See also the other function."))
+                             "See also the other function.",
+                             # prose lines that happen to be section markers of ANOTHER style: which style the text is
+                             # taken for must be decided by the text alone, not by what was parsed earlier
+                             "Returns: see the note above.", "Raises:\n      ValueError: never, in practice.",
+                             "Args: as documented above.", "Kwargs: none are accepted."))
+        if footer.split(":")[0] in ("Returns", "Raises", "Args", "Kwargs") and style == "rest":
+            probes_out["rest_doc_with_google_token"] = probes_out.get("rest_doc_with_google_token", 0) + 1
         doc = doc[:doc.rindex('"""')].rstrip() + "\n\n    " + footer + '\n    """'
         probes_out["docstring_with_footer"] = probes_out.get("docstring_with_footer", 0) + 1
     lines = ["def %s(%s):" % (spec["name"], sig), doc,
@@ -139,6 +145,15 @@ def build_T(rng, n_parse, n_emit, n_cmd):
                   "sqlalchemy_hybrid"):
             opts["docstring_format"] = rng.choice(STYLES)
         add({"kind": "emit", "emitter": em, "spec": spec, "opts": opts})
+    for _ in range(max(2, n_parse // 8)):
+        # two modules whose __all__ lists get merged (what gen and exmod do when a file already exists): names that
+        # coincide, that differ only in case, that start with an underscore or a digit-like suffix
+        pool = ["Config", "config", "CONFIG", "parse", "Parse", "VERSION", "version", "load", "Load", "_private", "dump",
+                "Alpha", "alpha", "beta_fn", "Beta_fn", "x1", "X1"]
+        a, b = rng.sample(pool, rng.randint(2, 6)), rng.sample(pool, rng.randint(2, 6))
+        mk = lambda names: "".join("%s = 1\n" % n for n in names) + "\n__all__ = %s\n" % json.dumps(names)
+        add({"kind": "merge_all", "first": mk(a), "second": mk(b)})
+        pr["merge_all_lists_op"] = pr.get("merge_all_lists_op", 0) + 1
     for _ in range(n_cmd):
         for op in command_ops(rng, pr):
             add(op)
@@ -222,6 +237,16 @@ def command_ops(rng, pr):
         "src/%s/sub/beta.py" % pkgname: "from typing import Any, List, Optional, Union\n\n\n" + gen.render_function(s2) +
                                         "\n__all__ = [\"beta_fn\"]\n",
     }
+    if rng.random() < 0.6:
+        # one module exporting names that differ only in case (class Alpha, function alpha, class ALPHA): all land in one
+        # generated file, whose __all__ is the *merge* of three lists - any ordering key that ignores case ties here
+        s4, s5 = _spec(rng, "alpha", 1, 3), _spec(rng, "ALPHA", 1, 3)
+        files["src/%s/alpha.py" % pkgname] = ("from typing import Any, List, Optional, Union\n\n\n" + gen.render_class(s1) + "\n\n" +
+                                              gen.render_function(s4) + "\n\n" + gen.render_class(s5) +
+                                              "\n__all__ = [\"Alpha\", \"alpha\", \"ALPHA\"]\n")
+        files["src/%s/__init__.py" % pkgname] = files["src/%s/__init__.py" % pkgname].replace(
+            "import Alpha\n", "import ALPHA, Alpha, alpha\n").replace("[\"Alpha\", ", "[\"ALPHA\", \"Alpha\", \"alpha\", ")
+        bump("exmod_names_differing_in_case")
     if rng.random() < 0.7:
         # a second sub-package and a sibling module: more than one entry per directory, so that the order in which the
         # file system lists them (directory-order seam) can matter
@@ -229,9 +254,9 @@ def command_ops(rng, pr):
         files["src/%s/extra/__init__.py" % pkgname] = "from %s.extra.gamma import Gamma\n\n__all__ = [\"Gamma\"]\n" % pkgname
         files["src/%s/extra/gamma.py" % pkgname] = ("from typing import Any, List, Optional, Union\n\n\n" +
                                                     gen.render_class(s3) + "\n__all__ = [\"Gamma\"]\n")
-        files["src/%s/__init__.py" % pkgname] = (
-            "from %s.alpha import Alpha\nfrom %s.extra.gamma import Gamma\nfrom %s.sub.beta import beta_fn\n\n"
-            "__all__ = [\"Alpha\", \"Gamma\", \"beta_fn\"]\n" % (pkgname, pkgname, pkgname))
+        files["src/%s/__init__.py" % pkgname] = files["src/%s/__init__.py" % pkgname].replace(
+            "from %s.sub.beta" % pkgname, "from %s.extra.gamma import Gamma\nfrom %s.sub.beta" % (pkgname, pkgname)).replace(
+            "\"beta_fn\"]", "\"Gamma\", \"beta_fn\"]")
         bump("exmod_two_subpackages")
     for emit_ in rng.sample(("class", "function", "argparse", "sqlalchemy_table", "sqlalchemy_hybrid"), 2):
         out.append({"kind": "cmd", "files": files, "sys_path": "src", "pkg": pkgname,
